@@ -164,6 +164,44 @@ VerdictProblems(ev) ==
           ELSE {}
      [] OTHER -> {}
 
+---------------------------------------------------------------------------
+(* C20: shadow prices.  V(b) = optimal value as a function of one right-hand  *)
+(* side; it is piecewise linear and convex (min) / concave (max).  If the two *)
+(* secant slopes over [b - 1/8, b] and [b, b + 1/8] agree, V is linear there  *)
+(* and that slope is the derivative: the reported dual must equal it.  When   *)
+(* they differ (degenerate / non-unique dual) the row is outside the property *)
+(* and not judged.                                                            *)
+Times8(ev) == [ev EXCEPT !.den = 8 * ev.den,
+                         !.obj = [j \in 1..Len(ev.obj) |-> 8 * ev.obj[j]],
+                         !.off = 8 * ev.off,
+                         !.rows = [k \in 1..Len(ev.rows) |->
+                                     [ev.rows[k] EXCEPT !.a = [j \in 1..Len(ev.rows[k].a) |-> 8 * ev.rows[k].a[j]],
+                                                        !.b = 8 * ev.rows[k].b]]]
+Shift(ev8, k, dlt) == [ev8 EXCEPT !.rows[k].b = ev8.rows[k].b + dlt]
+Slope(ev, k) ==
+   LET e8 == Times8(ev)
+       v0 == Verdict(e8)
+       vp == Verdict(Shift(e8, k, 1))
+       vm == Verdict(Shift(e8, k, -1))
+   IN  IF v0.st = "opt" /\ vp.st = "opt" /\ vm.st = "opt" /\ RSub(vp.v, v0.v) = RSub(v0.v, vm.v)
+       THEN [def |-> TRUE, v |-> RMul(R(8), RSub(vp.v, v0.v))]
+       ELSE [def |-> FALSE, v |-> R(0)]
+DualOf(ev, nm) == {j \in 1..Len(ev.sol.duals) : ev.sol.duals[j].name = nm}
+FirstNamed(ev, k) == ev.rows[k].name # "" /\ \A k2 \in 1..(k - 1) : ev.rows[k2].name # ev.rows[k].name
+DualClose(o, v) == IF o.snap THEN LET w == Norm(o.n, o.d) IN RLe(RMul(RAbs(RSub(w, v)), R(100000)), RMax(R(1), RAbs(v)))
+                   ELSE CAbs(o.c * v[2] - v[1] * CS) <= CTol * v[2]
+DualProblems(ev) ==
+   (IF \E j \in 1..Len(ev.sol.duals) : ev.sol.duals[j].name = "" \/ ~\E k \in 1..Len(ev.rows) : ev.rows[k].name = ev.sol.duals[j].name
+    THEN {"dual reported for an unnamed or unknown row"} ELSE {})
+   \cup (IF \E k \in 1..Len(ev.rows) : FirstNamed(ev, k) /\ Cardinality(DualOf(ev, ev.rows[k].name)) # 1
+          THEN {"named row without exactly one dual"} ELSE {})
+   \cup (IF \E k \in 1..Len(ev.rows) : FirstNamed(ev, k) /\ Cardinality(DualOf(ev, ev.rows[k].name)) = 1 /\
+               Cardinality({k2 \in 1..Len(ev.rows) : ev.rows[k2].name = ev.rows[k].name}) = 1 /\
+               LET sl == Slope(ev, k) IN sl.def /\ ~DualClose(ev.sol.duals[CHOOSE j \in DualOf(ev, ev.rows[k].name) : TRUE].v, sl.v)
+          THEN {"shadow price differs from the sensitivity of the optimum"} ELSE {})
+DualStat(ev) == PrintT(<<"DUAL", ev.id, Cardinality({k \in 1..Len(ev.rows) : FirstNamed(ev, k) /\ Slope(ev, k).def}),
+                         Cardinality({k \in 1..Len(ev.rows) : FirstNamed(ev, k) /\ Slope(ev, k).def /\ ~RZero(Slope(ev, k).v)})>>)
+
 Emit(p, ev, bad) == IF bad = {} THEN TRUE
                     ELSE PrintT(<<"REJECT", p, ev.id, CHOOSE b \in bad : TRUE, ToJson(bad)>>)
 Check(ev) ==
@@ -175,7 +213,8 @@ Check(ev) ==
          ELSE PrintT(<<"STAT", ev.id, "notaccepted", "">>))
    ELSE /\ (Has("C04") /\ ev.out = "solution" => Emit("C04", ev, PointProblems(ev)))
         /\ (Has("C05") => Emit("C05", ev, VerdictProblems(ev)))
-        /\ PrintT(<<"STAT", ev.id, ev.out, IF Has("C05") THEN Verdict(ev).st ELSE "">>)
+        /\ (Has("C20") /\ ev.out = "solution" => Emit("C20", ev, DualProblems(ev)) /\ DualStat(ev))
+        /\ PrintT(<<"STAT", ev.id, ev.out, IF Has("C05") \/ Has("C20") THEN Verdict(ev).st ELSE "">>)
 
 Init == l = Start
 Next == l <= Len(Rec) /\ Check(Rec[l]) /\ l' = l + 1
